@@ -48,7 +48,9 @@ theorem runAction_spec (env : Env) (it j : Bool) (es : ES) (a : Action) :
     simp only [List.mem_singleton] at ho
     subst ho
     exact ⟨rfl, rfl, Or.inr (Or.inl rfl), by simp, by simp⟩
-  | spawn tag sleep join loc => exact ⟨[], by simp [runAction]⟩
+  | spawn tag sleep join loc must =>
+    simp only [runAction]
+    split <;> exact ⟨[], by simp⟩
   | shutdown =>
     refine ⟨[⟨env.mi, .dwn, none, none, env.now⟩], rfl, ?_, by simp [runAction, isDwn], by simp [runAction, isPan]⟩
     intro o ho
@@ -130,7 +132,11 @@ theorem runTasks_spec (env : Env) (prog : Prog) (ts : List Task) : ∀ (es : ES)
     let es1 : ES := { es with obs := es.obs ++ [(⟨env.mi, .task, some t.tag, none, env.now⟩ : Obs)] }
     obtain ⟨l1, h1, h2, h3, h4⟩ := runActions_spec env true t.join (prog.onTask t.tag) es1
     let es2 : ES := { (runActions env true t.join (prog.onTask t.tag) es1).1 with
-      spawned := demote es.spawned.length t.loc (runActions env true t.join (prog.onTask t.tag) es1).1.spawned }
+      spawned := demote es.spawned.length t.loc (runActions env true t.join (prog.onTask t.tag) es1).1.spawned,
+      must := match t.mid with
+        | some i => (runActions env true t.join (prog.onTask t.tag) es1).1.must.set i
+            (if (runActions env true t.join (prog.onTask t.tag) es1).2 then HState.paniced else HState.done)
+        | none => (runActions env true t.join (prog.onTask t.tag) es1).1.must }
     have e2o : es2.obs = (runActions env true t.join (prog.onTask t.tag) es1).1.obs := rfl
     have e2r : es2.req = (runActions env true t.join (prog.onTask t.tag) es1).1.req := rfl
     obtain ⟨l2, g1, g2, g3, g4⟩ := ih es2
